@@ -329,15 +329,15 @@ type vAuthority struct {
 }
 
 type vPKI struct {
-	dir              string
-	ca               map[string]*vAuthority // ca1, ca2, caX, cli
-	cliCert, cliKey  string
-	cliDER           []byte
-	caFile           map[string]string // ca1, ca2, concat
-	cliPool          *x509.CertPool
-	mu               sync.Mutex
-	leaves           map[string]*tls.Certificate
-	serial           int64
+	dir             string
+	ca              map[string]*vAuthority // ca1, ca2, caX, cli
+	cliCert, cliKey string
+	cliDER          []byte
+	caFile          map[string]string // ca1, ca2, concat
+	cliPool         *x509.CertPool
+	mu              sync.Mutex
+	leaves          map[string]*tls.Certificate
+	serial          int64
 }
 
 func vMust(err error) {
@@ -492,17 +492,64 @@ type vHit struct {
 }
 
 type vLane struct {
-	id    int
-	tls   bool
-	pki   *vPKI
-	port  int
-	mu    sync.Mutex
-	cur   *vCase
-	req   *pb.SSHCertificateSigningRequest
-	reply [][]byte
-	hits  []*vHit
-	bufl  [vMaxPos + 1]*bufconn.Listener
-	srv   []*grpc.Server
+	id                        int
+	tls                       bool
+	pki                       *vPKI
+	port                      int
+	mu                        sync.Mutex
+	cur                       *vCase
+	req                       *pb.SSHCertificateSigningRequest
+	reply                     [][]byte
+	hits                      []*vHit
+	accepted, closed, running int
+	bufl                      [vMaxPos + 1]*bufconn.Listener
+	srv                       []*grpc.Server
+}
+
+// vListener counts accepted and closed server-side connections of a lane, so that a case is only finished when
+// everything it caused at the servers has been processed (no stale arrival can leak into the next case).
+type vListener struct {
+	net.Listener
+	lane *vLane
+}
+
+type vConn struct {
+	net.Conn
+	lane *vLane
+	once sync.Once
+}
+
+func (l *vListener) Accept() (net.Conn, error) {
+	c, err := l.Listener.Accept()
+	if err != nil {
+		return c, err
+	}
+	l.lane.mu.Lock()
+	l.lane.accepted++
+	l.lane.mu.Unlock()
+	return &vConn{Conn: c, lane: l.lane}, nil
+}
+
+func (c *vConn) Close() error {
+	c.once.Do(func() {
+		c.lane.mu.Lock()
+		c.lane.closed++
+		c.lane.mu.Unlock()
+	})
+	return c.Conn.Close()
+}
+
+// quiet waits until every accepted connection has been closed and no stub handler is running.
+func (l *vLane) quiet(max time.Duration) bool {
+	for t0 := time.Now(); time.Since(t0) < max; time.Sleep(2 * time.Millisecond) {
+		l.mu.Lock()
+		q := l.accepted == l.closed && l.running == 0
+		l.mu.Unlock()
+		if q {
+			return true
+		}
+	}
+	return false
 }
 
 type vStub struct {
@@ -514,6 +561,12 @@ type vStub struct {
 func (s *vStub) PostUserSSHCertificate(ctx context.Context, in *pb.SSHCertificateSigningRequest) (*pb.SSHKey, error) {
 	l := s.lane
 	l.mu.Lock()
+	l.running++
+	defer func() {
+		l.mu.Lock()
+		l.running--
+		l.mu.Unlock()
+	}()
 	same := l.req != nil && proto.Equal(in, l.req)
 	var h *vHit
 	if l.tls {
@@ -564,10 +617,12 @@ func (c *vCreds) ServerHandshake(raw net.Conn) (net.Conn, credentials.AuthInfo, 
 	l.mu.Lock()
 	h := &vHit{seq: len(l.hits), pos: c.pos, hs: "pending", ver: "none", cc: "none", same: true}
 	l.hits = append(l.hits, h)
+	l.running++ // the lane is not quiet before the outcome of this handshake is recorded
 	l.mu.Unlock()
 	conn, ai, err := c.TransportCredentials.ServerHandshake(raw)
 	l.mu.Lock()
 	defer l.mu.Unlock()
+	l.running--
 	h.done = true
 	if err != nil {
 		h.hs = "fail"
@@ -618,7 +673,7 @@ func vNewLane(id int, pki *vPKI, tlsMode bool) *vLane {
 			l.bufl[pos] = bufconn.Listen(1 << 20)
 			s := grpc.NewServer()
 			pb.RegisterSigningServer(s, &vStub{lane: l, pos: pos})
-			go s.Serve(l.bufl[pos])
+			go s.Serve(&vListener{Listener: l.bufl[pos], lane: l})
 			l.srv = append(l.srv, s)
 		}
 		return l
@@ -659,7 +714,7 @@ func vNewLane(id int, pki *vPKI, tlsMode bool) *vLane {
 				}}
 			s := grpc.NewServer(grpc.Creds(&vCreds{TransportCredentials: credentials.NewTLS(base), lane: l, pos: pos}))
 			pb.RegisterSigningServer(s, &vStub{lane: l, pos: pos})
-			go s.Serve(x)
+			go s.Serve(&vListener{Listener: x, lane: l})
 			l.srv = append(l.srv, s)
 		}
 		return l
@@ -801,18 +856,9 @@ func (l *vLane) run(c *vCase, base *vBase, r *mrand.Rand, tryMs int) []interface
 			defer cancel()
 			certs, comments, err = s.Sign(ctx, req)
 		}()
-		// let the servers finish the handshakes they started
-		for w := 0; w < 300; w++ {
-			l.mu.Lock()
-			pending := false
-			for _, h := range l.hits {
-				pending = pending || !h.done
-			}
-			l.mu.Unlock()
-			if !pending {
-				break
-			}
-			time.Sleep(10 * time.Millisecond)
+		// let the servers finish everything this call caused (handshakes, handlers, connection teardown)
+		if !l.quiet(10 * time.Second) {
+			c.Info.Note += " [servers not quiet]"
 		}
 		l.mu.Lock()
 		hits := append([]*vHit{}, l.hits...)
